@@ -70,6 +70,15 @@ func init() {
 		Level:       "held on every executed case: callers {1,2,4,8,16} x keys {1,2,3} x latency {0,10ms,1s} x outcome {value,error,error-then-value} x expiry {never,25ms} x 4 start patterns x 12 (thorough 120, GOMAXPROCS varied) repetitions inside testing/synctest bubbles under the race detector, plus every sequential call/advance pattern up to length 5 (6) against an exact model; in-flight counter and virtual-time execution log inside the supplied function",
 		Technique:   "in-callback monitor (in-flight counter + execution log) and caller-side log in virtual time (testing/synctest), race detector on",
 		Assumptions: []string{"schedules are those the Go runtime produces inside the bubble (repetitions, GOMAXPROCS varied in the thorough tier); not exhaustive", "not asserted: that a caller which began before the value was cached does not recompute (lookup-then-singleflight window)", "cache.Items are minted through a separate cache because Item has no exported constructor"}})
+	reg(&propCfg{ID: "C20", Pkg: "./props/c20", Variants: func(tier string) []variant {
+		if tier == "thorough" {
+			return []variant{{Name: "race", Race: true, Shards: 4, Procs: []int{16, 4, 2, 1}}}
+		}
+		return []variant{{Name: "race", Race: true, Shards: 1}}
+	},
+		Level:       "held on every executed case: Delay with Stop at instants around the delay; all debounce scripts up to length 4 (thorough 5) over call/burst/cancel x 4 gaps x 2 waits plus random bursts of 1..50 calls; all throttle scripts up to length 4 (5) over Call/burst x 4 gaps x 7 consumer arrangements x trailing on/off x period 5ms (thorough: also 50ms) plus random scripts; executed in testing/synctest bubbles under the race detector with exact virtual timestamps",
+		Technique:   "timestamping callbacks + consumer log in virtual time (testing/synctest), race detector on",
+		Assumptions: []string{"the fake clock of testing/synctest is the time source the library reads (time.AfterFunc/Since/Now)", "nothing is asserted at exact equality (gap == wait, delta == period): scripts avoid it", "schedules are those the Go runtime produces inside the bubble; thorough tier repeats with varied GOMAXPROCS", "throttle liveness is asserted only for the trailing configuration (as the property states)"}})
 	reg(&propCfg{ID: "C04", Pkg: "./props/c04", Variants: simple(false),
 		Technique:   "reference-model trace monitor (map model) over systematic small-scope sweep + seeded random sequences",
 		Assumptions: []string{"the map model and the generators are trusted", "single goroutine; concurrency is C01/C02"}})
